@@ -1,7 +1,7 @@
 (* C13 — Dial sends a well-formed handshake and accepts only a valid server response.
-   Statements only; proofs in Proofs/HandshakeP.v. *)
+   Statements only; proofs in Proofs/HandshakeP.v and Proofs/HsComposeP.v. *)
 From Coq Require Import List NArith Bool.
-From WS Require Import Base.Words Gen.Consts Model.Proto Model.Fold Model.Base64 Model.Sha1 Model.Handshake Proofs.HandshakeP.
+From WS Require Import Base.Words Gen.Consts Model.Proto Model.Fold Model.Base64 Model.Sha1 Model.Handshake Model.HsCompose Proofs.HandshakeP Proofs.HsComposeP.
 Import ListNotations.
 
 (* the headers Dial sets: exactly one value each, whatever the caller supplied under those keys *)
@@ -27,3 +27,45 @@ Example C13_nonvacuous :
   let bad := {| p_status := 101; p_hdrs := [(s_Connection, [s_Upgrade]); (s_Upgrade, [s_websocket]); (s_SecAccept, [accept_key (0%N :: k)])] |} in
   verify_server_response o k ok = VOk None /\ verify_server_response o k bad = VErr.
 Proof. vm_compute. split; reflexivity. Qed.
+
+(* ---- the two halves together: a library client against a library server (Model/HsCompose.v) ---- *)
+
+(* For EVERY client configuration (subprotocol names as a caller would write them, any compression mode), every 16-byte
+   nonce, every Host and every server configuration (supported subprotocols, origin patterns, compression mode): the
+   server upgrades the request Dial sends (101), and Dial accepts the answer Accept writes — with exactly the compression
+   parameters the server holds (C14). *)
+Theorem C13_lib_lib_handshake : forall host o ao d,
+  wf_bytes d -> length d = 16%nat -> Forall clean_token (d_subprotocols o) ->
+  let k := b64_encode d in
+  let a := accept_decide (lib_request host o k) ao in
+  ar_status a = 101%nat /\ verify_server_response o k (lib_response a) = VOk (ar_copts a).
+Proof. exact lib_lib_handshake. Qed.
+Print Assumptions C13_lib_lib_handshake.
+
+(* the subprotocol the server announces is one the client asked for (up to case), or none *)
+Theorem C13_lib_lib_subprotocol : forall host o ao d,
+  wf_bytes d -> length d = 16%nat -> Forall clean_token (d_subprotocols o) ->
+  let a := accept_decide (lib_request host o (b64_encode d)) ao in
+  ar_subproto a = [] \/ exists sp, In sp (d_subprotocols o) /\ fold_eq sp (ar_subproto a) = true.
+Proof. exact lib_lib_subprotocol. Qed.
+Print Assumptions C13_lib_lib_subprotocol.
+
+(* the hypothesis on the names is needed: a name with a trailing space is announced by the server without it, and the
+   client, which compares with what it asked for, refuses the answer (the hs-pair suite shows the library doing just that) *)
+Example C13_unclean_name_refused :
+  let o := {| d_subprotocols := [[99;104;97;116;32]]; d_mode := MDisabled |} in
+  let ao := {| a_subprotocols := [[99;104;97;116]]; a_skip_verify := false; a_patterns := []; a_mode := MDisabled |} in
+  let k := [100;71;104;108;73;72;78;104;98;88;66;115;90;83;66;117;98;50;53;106;90;81;61;61] in
+  let a := accept_decide (lib_request [101] o k) ao in
+  ar_status a = 101%nat /\ ar_subproto a = [99;104;97;116] /\ verify_server_response o k (lib_response a) = VErr.
+Proof. vm_compute. repeat split; reflexivity. Qed.
+
+Example C13_composition_nonvacuous :
+  let o := {| d_subprotocols := [[99;104;97;116]; [118;50]]; d_mode := MTakeover |} in
+  let ao := {| a_subprotocols := [[86;50]]; a_skip_verify := false; a_patterns := []; a_mode := MNoTakeover |} in
+  let k := [100;71;104;108;73;72;78;104;98;88;66;115;90;83;66;117;98;50;53;106;90;81;61;61] in
+  let a := accept_decide (lib_request [101] o k) ao in
+  Forall clean_token (d_subprotocols o) /\ ar_subproto a = [118;50] /\
+  verify_server_response o k (lib_response a) = VOk (Some {| cnct := true; snct := true |}).
+Proof. split; [| vm_compute; split; reflexivity].
+  repeat constructor; try discriminate; cbv; intuition discriminate. Qed.
